@@ -227,8 +227,13 @@ func TestC10HandshakeCancellation(t *testing.T) {
 			}
 			cancelStep := rapid.IntRange(0, 12).Draw(rt, "cancel-at-step")
 			viaDial := rapid.Bool().Draw(rt, "via-dial")
+			// The context may also end while the dialer is still at work: the library then holds a
+			// connection it opened itself and a context that is already done when the handshake begins.
+			cancelInDialer := viaDial && rapid.IntRange(0, 3).Draw(rt, "cancel-inside-dialer") == 0
 			ctx, cancel := context.WithCancel(context.Background())
 			defer cancel()
+			canceled := false
+			var tc time.Time
 			opt := baseOptions(54460, compModes[0])
 			opt.HandshakeTimeout = 30 * time.Second
 			var client *ch.Client
@@ -238,7 +243,11 @@ func TestC10HandshakeCancellation(t *testing.T) {
 			go func() {
 				defer close(done)
 				if viaDial {
-					opt.Dialer = &simDialer{conn: e.conn}
+					d := &simDialer{conn: e.conn}
+					if cancelInDialer {
+						d.onDial = func() { canceled = true; tc = time.Now(); cancel() }
+					}
+					opt.Dialer = d
 					client, err = ch.Dial(ctx, opt)
 				} else {
 					client, err = ch.Connect(ctx, e.conn, opt)
@@ -251,8 +260,9 @@ func TestC10HandshakeCancellation(t *testing.T) {
 				<-done
 			}()
 			var trace []string
-			canceled := false
-			var tc time.Time
+			if cancelInDialer {
+				trace = append(trace, "CANCEL-IN-DIALER")
+			}
 			for step := 0; step < 400; step++ {
 				synctest.Wait()
 				select {
